@@ -73,59 +73,72 @@ func c16Assembled(seed int64) []c16File {
 			}
 			for ui, unk := range []string{"none", "junk-before", "junk-after"} {
 				for mi, meta := range []string{"nometa", "icc-before", "exif-xmp-after", "all"} {
-					// exact flags
-					var exact byte
-					if al.has && len(al.data) > 0 || im.lossless && im.fr.VP8L.Alpha {
-						exact |= riffwalk.FlagAlpha
-					}
-					if mi == 1 || mi == 3 {
-						exact |= riffwalk.FlagICC
-					}
-					if mi >= 2 {
-						exact |= riffwalk.FlagEXIF | riffwalk.FlagXMP
-					}
-					flagVariants := []struct {
-						n string
-						f byte
-					}{{"exact", exact}}
-					if ui == 0 {
-						for _, b := range []struct {
-							n string
-							b byte
-						}{{"alpha", riffwalk.FlagAlpha}, {"icc", riffwalk.FlagICC}, {"exif", riffwalk.FlagEXIF}, {"xmp", riffwalk.FlagXMP}} {
-							if exact&b.b == 0 {
-								flagVariants = append(flagVariants, struct {
-									n string
-									f byte
-								}{"over-" + b.n, exact | b.b})
-							} else {
-								flagVariants = append(flagVariants, struct {
-									n string
-									f byte
-								}{"under-" + b.n, exact &^ b.b})
-							}
+					// size of what precedes the image chunk: a reader that peeks at a fixed-size
+					// prefix of the file (4 KB, 64 KB ...) sees the image header only in the small case
+					for _, big := range []int{0, 5001, 70001} {
+						if big > 0 && !(ui == 1 || mi == 1 || mi == 3) {
+							continue
 						}
-					}
-					for _, fv := range flagVariants {
-						var body [][]byte
-						body = append(body, riffwalk.VP8X(fv.f, im.fr.BitW(), im.fr.BitH()))
+						junk, icc, meta := junk, icc, meta
+						if big > 0 {
+							junk = riffwalk.ChunkBytes("JUNK", blob(big, 4))
+							icc = riffwalk.ChunkBytes("ICCP", blob(big+1, 5))
+							meta = fmt.Sprintf("%s-lead%d", meta, big)
+						}
+						// exact flags
+						var exact byte
+						if al.has && len(al.data) > 0 || im.lossless && im.fr.VP8L.Alpha {
+							exact |= riffwalk.FlagAlpha
+						}
 						if mi == 1 || mi == 3 {
-							body = append(body, icc)
-						}
-						if ui == 1 {
-							body = append(body, junk)
-						}
-						if al.has {
-							body = append(body, riffwalk.ChunkBytes("ALPH", al.data))
-						}
-						body = append(body, riffwalk.ChunkBytes(cc, im.fr.Bitstream))
-						if ui == 2 {
-							body = append(body, junk)
+							exact |= riffwalk.FlagICC
 						}
 						if mi >= 2 {
-							body = append(body, exif, xmp)
+							exact |= riffwalk.FlagEXIF | riffwalk.FlagXMP
 						}
-						out = append(out, c16File{Name: fmt.Sprintf("hand/%s/vp8x/%s/%s/%s/flags-%s", im.name, al.name, unk, meta, fv.n), Data: riffwalk.RIFF(body...)})
+						flagVariants := []struct {
+							n string
+							f byte
+						}{{"exact", exact}}
+						if ui == 0 {
+							for _, b := range []struct {
+								n string
+								b byte
+							}{{"alpha", riffwalk.FlagAlpha}, {"icc", riffwalk.FlagICC}, {"exif", riffwalk.FlagEXIF}, {"xmp", riffwalk.FlagXMP}} {
+								if exact&b.b == 0 {
+									flagVariants = append(flagVariants, struct {
+										n string
+										f byte
+									}{"over-" + b.n, exact | b.b})
+								} else {
+									flagVariants = append(flagVariants, struct {
+										n string
+										f byte
+									}{"under-" + b.n, exact &^ b.b})
+								}
+							}
+						}
+						for _, fv := range flagVariants {
+							var body [][]byte
+							body = append(body, riffwalk.VP8X(fv.f, im.fr.BitW(), im.fr.BitH()))
+							if mi == 1 || mi == 3 {
+								body = append(body, icc)
+							}
+							if ui == 1 {
+								body = append(body, junk)
+							}
+							if al.has {
+								body = append(body, riffwalk.ChunkBytes("ALPH", al.data))
+							}
+							body = append(body, riffwalk.ChunkBytes(cc, im.fr.Bitstream))
+							if ui == 2 {
+								body = append(body, junk)
+							}
+							if mi >= 2 {
+								body = append(body, exif, xmp)
+							}
+							out = append(out, c16File{Name: fmt.Sprintf("hand/%s/vp8x/%s/%s/%s/flags-%s", im.name, al.name, unk, meta, fv.n), Data: riffwalk.RIFF(body...)})
+						}
 					}
 				}
 			}
@@ -185,7 +198,9 @@ func c16Corpus(e *fw.Env) []c16File {
 	// encoder outputs, one per option class
 	for i, im := range c02Images {
 		src := imgs.Make(im.W, im.H, im.Content, im.Alpha, e.Seed)
-		for _, o := range []*webp.EncoderOptions{nil, {Lossless: true, Quality: 75, Method: 4}, lossyOpts(func(o *webp.EncoderOptions) { o.EXIF = []byte{9} }), lossyOpts(func(o *webp.EncoderOptions) { o.Exact = true; o.AlphaCompression = 0 })} {
+		for _, o := range []*webp.EncoderOptions{nil, {Lossless: true, Quality: 75, Method: 4}, lossyOpts(func(o *webp.EncoderOptions) { o.EXIF = []byte{9} }), lossyOpts(func(o *webp.EncoderOptions) { o.Exact = true; o.AlphaCompression = 0 }),
+			// large metadata in front of the image chunk (beyond any fixed-size header peek)
+			{Lossless: true, Quality: 75, Method: 4, ICC: blob(6000, 6)}, lossyOpts(func(o *webp.EncoderOptions) { o.ICC = blob(70000, 7) })} {
 			out = append(out, c16File{Name: fmt.Sprintf("encode/img%d/%v", i, o != nil && o.Lossless), Data: mustEncode(src, o), Package: true})
 		}
 	}
